@@ -133,7 +133,8 @@ func (p *MetadataPersister) UpdateHeaderMetadata(ctx context.Context, dbhdr *con
 	hdr := *idbhdr
 	hdr.Name = p.getSanitizedPath(ctx, idbhdr.Name)
 
-	if _, err := hdr.Update(ctx, p.sqlite.DB, boil.Infer()); err != nil {
+	// Only `DeleteHeader` and a new `UpsertHeader` decide whether an entry is deleted; updating a removed entry must not bring it back
+	if _, err := hdr.Update(ctx, p.sqlite.DB, boil.Blacklist(models.HeaderColumns.Deleted)); err != nil {
 		return err
 	}
 
